@@ -1,6 +1,6 @@
 (* Props/C12.v - Results stream lazily with back-pressure and without starving other clients. *)
 From Coq Require Import List Arith NArith Lia Bool.
-From MM Require Import Lib.Bytes Model.Conn Proofs.StreamProofs Gen.FactsConn Gen.FactsStream Gen.FactsRoute Gen.FactsVars.
+From MM Require Import Lib.Bytes Model.Conn Model.Resp Proofs.C10Proofs Proofs.StreamProofs Proofs.C03Proofs Proofs.LazyProofs Gen.FactsConn Gen.FactsStream Gen.FactsRoute Gen.FactsVars.
 Import ListNotations.
 Open Scope N_scope.
 
@@ -53,3 +53,34 @@ Proof. exact (rows_plan_yields BATCH BATCHpos). Qed.
 
 Example c12_bound_value : B / 5 + 1 = 6554.
 Proof. reflexivity. Qed.
+
+(* ---- over whole conversations (Proofs/LazyProofs.v, on top of the invariant of Proofs/C03Proofs.v) --------------------------------
+   In the state every round of every lock-step conversation ends in (any commands except COM_FIELD_LIST, whose handler consumes
+   the library's own catalogue result; any application outcomes; any schedule of row / loop / socket events), unless the
+   connection is closing: the write buffer is below its limit (or empty), and the rows pulled from the application's sources
+   are at most the rows handed to the socket plus the rows in the buffer plus ONE - the server is never more than one buffer
+   and one row ahead of the socket; and when the server is back at its prompt nothing is in flight.  `base` is the difference
+   of the two counters when the conversation starts (0 for a fresh connection). *)
+Theorem c12_lookahead_in_every_conversation : forall B BATCH dep base rounds s,
+  quiescent dep s -> at_prompt s -> acct base s 0 ->
+  Forall (fun r : cmd * list ev => cmd_ok (fst r) /\ no_fieldlist (fst r) /\ Forall allowed (snd r)) rounds ->
+  lazy_rounds B BATCH base s rounds.
+Proof. exact lazy_lockstep. Qed.
+
+(* in bytes: 4 x (pulled - handed - base) <= B + 4 *)
+Theorem c12_lookahead_in_bytes : forall B base s, lazy_state B base s ->
+  match ctl_ s with
+  | Susp _ _ (FClose _) _ => True
+  | Susp _ _ _ _ => 4 * pulled s <= 4 * (base + handed s) + B + 4
+  | _ => True
+  end.
+Proof. exact lazy_state_bytes. Qed.
+
+(* non-vacuity: a fresh connection meets the premises; a 40-row result under a paused socket ends the round suspended in the
+   socket drain, where the bound applies *)
+Example c12_conversation_nonvacuous :
+  let s := fst (exec B BATCH (fst (boot B BATCH 78)) [EvHandshake true false; EvDecide ASuccess; EvApp OVoid]) in
+  quiescent false s /\ at_prompt s /\ acct 0 s 0 /\
+  ctl_ (fst (exec B BATCH s [EvPayload CQuery; EvPause; EvApp (OSet (mk_sizes 1 [20] 5 7) (repeat (IRow 2000) 40))])) =
+    Susp WDrain (skipn 37 (text_plan BATCH s (mk_sizes 1 [20] 5 7) (repeat (IRow 2000) 40))) FHandler None.
+Proof. vm_compute. repeat split; reflexivity. Qed.
